@@ -50,11 +50,13 @@ type srtRendering struct {
 	ColorQuote int    `json:"color_quote"` // 0 double, 1 single, 2 none (when the value allows)
 	Carry      bool   `json:"carry"`       // keep emphasis open across runs and lines instead of closing after each run
 	Unterm     bool   `json:"unterminated"`
-	NBSPEntity bool   `json:"nbsp_entity"`         // write U+00A0 as &nbsp;
-	CoordSep   string `json:"coord_sep,omitempty"` // white space between the end time and the coordinates
-	TagLines   bool   `json:"tag_lines,omitempty"` // tags ahead of a line's first run are written on a line of their own
-	AmpLiteral bool   `json:"amp_literal"`         // leave '&' unescaped where that is unambiguous
-	LongHours  bool   `json:"long_hours"`          // unused marker (hours >= 100 come from the model)
+	NBSPEntity bool   `json:"nbsp_entity"`          // write U+00A0 as &nbsp;
+	CoordSep   string `json:"coord_sep,omitempty"`  // white space between the end time and the coordinates
+	TagLines   bool   `json:"tag_lines,omitempty"`  // tags ahead of a line's first run are written on a line of their own
+	AmpLiteral bool   `json:"amp_literal"`          // leave '&' unescaped where that is unambiguous
+	LongHours  bool   `json:"long_hours"`           // unused marker (hours >= 100 come from the model)
+	EndSep     string `json:"end_sep,omitempty"`    // millisecond separator of the end time when it differs from the start's
+	CoordForm  int    `json:"coord_form,omitempty"` // 1: coordinates with a decimal point, 2: with a decimal comma
 }
 
 func fmtSRTTime(ms int64, sep string, digits int) string {
@@ -137,13 +139,17 @@ func renderSRT(d srtDoc, r srtRendering) []byte {
 		case 3:
 			emit(fmt.Sprint(1000 - ci*7))
 		}
-		tl := fmtSRTTime(cue.Start, r.Sep, r.FracDigits) + r.PadL + "-->" + r.PadR + fmtSRTTime(cue.End, r.Sep, r.FracDigits)
+		endSep := r.Sep
+		if r.EndSep != "" {
+			endSep = r.EndSep
+		}
+		tl := fmtSRTTime(cue.Start, r.Sep, r.FracDigits) + r.PadL + "-->" + r.PadR + fmtSRTTime(cue.End, endSep, r.FracDigits)
 		if r.Coords {
 			sep := r.CoordSep
 			if sep == "" {
 				sep = " "
 			}
-			tl += sep + "X1:100 X2:600 Y1:050 Y2:100"
+			tl += sep + []string{"X1:100 X2:600 Y1:050 Y2:100", "X1:100.5 X2:600.25 Y1:050 Y2:100.0", "X1:100,5 X2:600 Y1:050,75 Y2:100"}[r.CoordForm%3]
 		}
 		emit(tl)
 		cur := srtRun{} // style currently open
@@ -431,6 +437,10 @@ func genSRTRendering(t *rapid.T) srtRendering {
 		CoordSep:   rapid.SampledFrom([]string{" ", " ", "\t", "  ", " \t"}).Draw(t, "coordsep"),
 		TagLines:   rapid.IntRange(0, 3).Draw(t, "taglines") == 0,
 		AmpLiteral: rapid.Bool().Draw(t, "amplit"),
+		CoordForm:  rapid.SampledFrom([]int{0, 0, 1, 2}).Draw(t, "coordform"),
+	}
+	if rapid.IntRange(0, 5).Draw(t, "mixsep") == 0 {
+		r.EndSep = map[string]string{",": ".", ".": ","}[r.Sep]
 	}
 	nb := rapid.IntRange(1, 3).Draw(t, "nblank")
 	for i := 0; i < nb; i++ {
